@@ -160,6 +160,7 @@ class RealWorld:
             if a.active:
                 ok = self.grid.place(a, tuple(s["pos"]))
                 if not ok:
+                    STATS["illegal"] += 1
                     raise ValueError("illegal world description: cannot place " + a.id)
 
     # ---- canonical dumps -------------------------------------------------------------------
@@ -212,6 +213,9 @@ def _rng(v, world):
 # generators of legal worlds
 
 _FRAGILE = {}
+STATS = {"illegal": 0}      # world descriptions the real grid refused to hold (legal by construction: expected 0)
+if __import__("os").environ.get("VERIF_DEBUG_STATS"):
+    __import__("atexit").register(lambda: print("GRIDW STATS", STATS))
 
 
 def fragile_ties(rmax=40):
@@ -394,4 +398,5 @@ def set_state_in_order(world, state, order=None):
         a, s = world.agent_list[i], state[i]
         if a.active:
             if not world.grid.place(a, tuple(s["pos"])):
+                STATS["illegal"] += 1
                 raise ValueError("illegal world description: cannot place " + a.id)
